@@ -50,8 +50,11 @@ Named(sel) ==
 \* rule kinds
 RuleKinds == {"none", "get", "post-body-star", "post-body-field", "with-additional", "bad-syntax", "nested-additional",
               "body-missing-field", "respbody-missing-field", "respbody-field", "var-missing-field", "var-repeated-field",
-              "var-nested", "additional-same-as-primary", "blank-path"}
-RuleValid(kind) == kind \in {"get", "post-body-star", "post-body-field", "with-additional", "respbody-field", "var-nested"}
+              "var-nested", "additional-same-as-primary", "blank-path", "custom-any-then-get", "get-then-custom-any"}
+\* (a custom pattern of kind "*" binds every HTTP method; a binding for one method on the same path is a
+\*  different binding, in either order)
+RuleValid(kind) == kind \in {"get", "post-body-star", "post-body-field", "with-additional", "respbody-field", "var-nested",
+                             "custom-any-then-get", "get-then-custom-any"}
 
 \* the rule is applied to every named method; two methods cannot share template and HTTP method
 RuleOK(cfg) ==
